@@ -507,9 +507,14 @@ class EffectClient(Client):
         if isinstance(st, ast.Assign):
             outs = []
             for s1 in self._effects_of_expr(st.value, s):
+                rv = s1.retval if isinstance(st.value, ast.Call) else None
                 s1 = s1.with_(retval=None)
                 for t in st.targets:
-                    s1 = self._assign(t, st.value, s1)
+                    if rv is not None and rv != '<current>' and isinstance(t, ast.Name):
+                        # ``nxt = self.other_action()``: the local holds the state that action returned on this path
+                        s1 = s1.set_local(t.id, frozenset([('STATE:' + rv, None)]))
+                    else:
+                        s1 = self._assign(t, st.value, s1)
                 outs.append(s1)
             return outs
         if isinstance(st, ast.AugAssign):
@@ -601,6 +606,12 @@ class EffectClient(Client):
         """-> (true states, false states) when the abstract state decides/refines the
         test, None when it does not talk about anything we track."""
         c = self.canon(test)
+        if isinstance(test, ast.Name) and s.local(test.id) is not None:
+            ks = s.local(test.id)
+            if ks and NONE not in ks and TOP not in ks and all(isinstance(k, tuple) and not str(k[0]).startswith('STATE:') for k in ks):
+                return ([s], [])      # a PDU object is truthy
+            if ks == frozenset([NONE]):
+                return ([], [s])
         if c == ('self', 'dul_socket'):
             return ([s], []) if s.sock == 'present' else ([], [s])
         if c == ('self', 'primitive'):
@@ -615,6 +626,13 @@ class EffectClient(Client):
                 if lc == ('self', 'dul_socket'):
                     isnone = s.sock == 'absent'
                     return ([s], []) if (isnone == pos) else ([], [s])
+                if isinstance(left, ast.Name) and s.local(left.id) is not None:
+                    # a local whose kinds are known (a freshly built PDU, a parameter bound to None)
+                    ks = s.local(left.id)
+                    if ks and NONE not in ks and TOP not in ks:
+                        return ([], [s]) if pos else ([s], [])
+                    if ks == frozenset([NONE]):
+                        return ([s], []) if pos else ([], [s])
                 if lc == ('self', 'primitive'):
                     nk = frozenset(k for k in s.prim if k in (NONE, TOP))
                     ok = frozenset(k for k in s.prim if k != NONE)
@@ -629,6 +647,13 @@ class EffectClient(Client):
                              if self.repo.try_fold(self.repo.cls('pdu', n).find_attr('pdu_type')[1],
                                                    self.repo.module('pdu')) == v]
                     return self._refine_prim(s, names, isinstance(op, ast.Eq))
+            # a local / parameter holding a state compared with a state constant
+            if isinstance(op, (ast.Eq, ast.NotEq, ast.Is, ast.IsNot)) and (isinstance(left, ast.Name) or isinstance(right, ast.Name)):
+                ln, rn = self._state_name(left, s), self._state_name(right, s)
+                if ln is not None and rn is not None:
+                    same = ln == rn
+                    pos = isinstance(op, (ast.Eq, ast.Is))
+                    return ([s], []) if same == pos else ([], [s])
             # role tests: self.provider.<attr> == const
             r = self._role_test(test, s)
             if r is not None:
